@@ -124,8 +124,15 @@ def s_char_pred(ex, c, args, m):
     ch = S(args[0])
     if not isinstance(ch, SChar): return NotImplemented
     if m.group(1) == 'is_whitespace': return is_ws(ch.c)
-    if m.group(1) == 'is_ascii_digit': return z3.And(z3.UGE(cval(ch.c), 48), z3.ULE(cval(ch.c), 57))
-    raise Unsupported('char predicate ' + m.group(1))
+    c_ = cval(ch.c)
+    digit = z3.And(z3.UGE(c_, 48), z3.ULE(c_, 57))
+    if m.group(1) == 'is_ascii_digit': return digit
+    alpha = z3.Or(z3.And(z3.UGE(c_, 65), z3.ULE(c_, 90)), z3.And(z3.UGE(c_, 97), z3.ULE(c_, 122)))
+    # exact on ASCII; beyond ASCII the Unicode tables are an uninterpreted predicate of the code point (both answers are explored, a
+    # counterexample is replayed natively before it counts)
+    u = z3.Function('unicode_' + m.group(1), z3.BitVecSort(32), z3.BoolSort())(c_)
+    asc = {'is_alphanumeric': z3.Or(alpha, digit), 'is_alphabetic': alpha, 'is_numeric': digit}[m.group(1)]
+    return z3.If(z3.ULT(c_, 128), asc, u)
 @M.add(r'^<char as PartialEq>::(eq|ne)$', front=True, first=True)
 def s_char_eq(ex, c, args, m):
     a, b = S(args[0]), S(args[1])
